@@ -165,7 +165,7 @@ Theorem five_xx_never_query : forall w now q u st,
 Proof. intros. exact (conj (introspect_5xx w now q st) (conj (revoke_5xx w now q st) (userinfo_5xx w now u st))). Qed.
 Print Assumptions five_xx_never_query.
 Example five_xx_token_antecedent :
-  let w := mkWorld (mkConfig POpenID [GClientCredentials] [] [] [] false 0 300 false false 0 false false "" [] false false 0 false
+  let w := mkWorld (mkConfig POpenID [GClientCredentials] [] [] [] false 0 300 IssueNever false 0 false false "" [] false false 0 false
                  false false false false false 0 false false false false false false false false false
                  false false false false false false false "" false [])
                    [mkClient 1 false [GClientCredentials] [] [] "" CibaNone false false false false false false false 0 false] in
@@ -239,7 +239,7 @@ Print Assumptions frame_introspect.
    it: the refused request left the session behind, modified in place by the policy under the
    default storage).  Both interpreters end in the same store. *)
 Definition orphan_world : world :=
-  mkWorld (mkConfig POpenID [GAuthorizationCode] [] ["code"] [] false 600 300 false false 0 false false "" [] false false 0 false
+  mkWorld (mkConfig POpenID [GAuthorizationCode] [] ["code"] [] false 600 300 IssueNever false 0 false false "" [] false false 0 false
              false false false false false 0 false false false false false false false false false
              false false false false false false false "" false []) [].
 Definition orphan_session : asession :=
